@@ -63,27 +63,16 @@ func c06R1(p *Prog, r *Report) {
 		if fi == nil {
 			continue
 		}
-		declared := declaredLookupHelpers(p)
-		lookup := func(in ssa.Instruction) bool {
-			if isNamed0("callExisting")(in) {
-				return true
-			}
-			// a verified `declared by the user?` lookup (asks the extend index and the method index):
-			// its negative answer is the only sanctioned way past callExisting (update positions, C11.R9)
-			if c, ok := in.(ssa.CallInstruction); ok && ssaCalleeObj(c) != nil {
-				if why, ok := declared[ssaCalleeObj(c).Origin()]; ok && why == "" {
-					return true
-				}
-			}
-			// Assign delegates to g.Build for MustAssign
-			c, ok := in.(ssa.CallInstruction)
-			return ok && ssaCalleeObj(c) != nil && isFunc(ssaCalleeObj(c), modPath+"/generator", "generator", "Build")
-		}
-		if g := existsPath(sf.Blocks[0], 0, isNamed0("createSubMethod", "buildNoLookup", "assignNoLookup", "shouldCreateSubMethod"), lookup); g != nil {
+		// evaluated with the verified `declared by the user?` lookup answering yes (its negative answer is the only
+		// sanctioned way past callExisting: update positions, C11.R9): no rule-based conversion and no new sub-method
+		// before callExisting (or the delegation to Build)
+		yes := true
+		if g := lookupFirstEval(p, sf, nil, &yes); g != nil {
 			r.Bad(k+"/lookup first", p.PosStr(g.Pos()), "a rule-based conversion or a new sub-method can be chosen without first looking for an extend function / declared method for this type pair")
 		} else {
 			r.OK(k+"/lookup first", p.PosStr(fi.Decl.Pos()), "callExisting precedes createSubMethod / *NoLookup on every path")
 		}
+		_ = isNamed0
 		// a hit of callExisting is returned: `if nextID != nil || err != nil { return … }`
 	}
 	// (b) callExisting
